@@ -346,11 +346,12 @@ def convex_subsets(prog, max_size=None):
                 yield list(S)
 
 
-def nest(prog, S, name="inner", rename_in=None, rename_out=None, inner_bound=None, pos=None, selected=None):
+def nest(prog, S, name="inner", rename_in=None, rename_out=None, inner_bound=None, pos=None, selected=None, double_bound=None):
     """Wrap the nodes named in S into a nested graph `name`.  rename_in / rename_out are LOCAL
     alpha-renamings of the inner graph {outer name: inner name} that the wrapper undoes with
     with_inputs / with_outputs, so the outer interface is unchanged.  inner_bound: outer names to
-    bind INSIDE the nested graph instead of at the outer level."""
+    bind INSIDE the nested graph instead of at the outer level; double_bound: outer names bound at BOTH levels,
+    inside to another value that the outer binding overrides (like a second .bind() on a flat graph)."""
     rename_in = rename_in or {}
     rename_out = rename_out or {}
     ren = dict(rename_in)
@@ -384,6 +385,8 @@ def nest(prog, S, name="inner", rename_in=None, rename_out=None, inner_bound=Non
             ib.append([ren.get(b, b), v])
         else:
             ob.append([b, v])
+            if double_bound and b in double_bound and b in ext_in:
+                ib.append([ren.get(b, b), "shadowed." + b])
     sub = IR.prog(name, inner_nodes, bound=ib, max_iter=1000, selected=[ren.get(o, o) for o in selected] if selected else None)
     exposed = sub["selected"] if sub["selected"] != IR.UNSET else outs
     gn = IR.graph_node(sub, name=name,
